@@ -213,7 +213,7 @@ def _configs(tier, salts):
                         if tier == "thorough" and salt == 0 and maxfun == 20 and prob == "nzr" and not bounds and mode in ("default", "soft", "hard", "growing"):
                             depth, letters = 2, ["x0.3", "x3", "x1e3"]
                         out.append((cfg, {"depth": depth, "letters": letters}))
-        if salt == 0 or tier == "thorough":
+        if salt == 0 or (tier == "thorough" and salt == 1):
             for name, cfg in cfgs.broad_cfgs(salt=salt, budgets=(12, 40, 90), extra_up=DIAG, reg_budgets=(8,), overlays=("avg", "soft")):
                 depth = 1 if (tier == "thorough" and cfg.get("memo", True) and cfg["maxfun"] == 40 and "reg" not in cfg["broad_flags"]) else 0
                 out.append((dict(cfg, tag_mode=cfg["tag_mode"]), {"depth": depth, "letters": ["x0.3", "x3", "x1e3"]}))
